@@ -19,6 +19,7 @@ type H struct {
 	abort bool
 	noReport int
 	slowRounds int
+	noRecovery int
 }
 
 func (h *H) logf(format string, a ...any) {
